@@ -2,7 +2,7 @@
    `exact <lemma>` and followed by Print Assumptions; the checks read this file's compile
    log.  Statements are never weakened: a statement that cannot be proved stays visible
    under a `_partial` twin (see DESIGN.md section 9). *)
-From Coq Require Import List String Bool.
+From Coq Require Import List String Bool Permutation.
 Import ListNotations.
 From DI Require Import Syntax Tokens Bounds Subs Superset Substitute Spec RustSem Group Dispatch Examples ExamplesGroup.
 From DI.proofs Require Import Basics SupersetSound SupersetExact SubstituteProofs BoundsProofs DispatchProofs GroupProofs.
@@ -205,3 +205,20 @@ Example C11_nonvacuous :
   end.
 Proof. vm_compute. repeat split. Qed.
 Print Assumptions C11_nonvacuous.
+
+(* ===================================================================================== *)
+(* C05 -- block order independence (meaning of the expansion)                              *)
+(* ===================================================================================== *)
+
+(* permuting the members of a family changes neither whether the trait is implemented for a
+   query nor which members the delegation can reach *)
+Theorem C05_coverage_perm : forall (Q V : Type) keyvals (ms ms' : list (member Q V)) q,
+  Permutation ms ms' -> main_applies Q V keyvals ms q = main_applies Q V keyvals ms' q.
+Proof. exact coverage_perm. Qed.
+Print Assumptions C05_coverage_perm.
+
+Theorem C05_selected_perm : forall (Q V : Type) keyvals (ms ms' : list (member Q V)) q,
+  Permutation ms ms' ->
+  Permutation (selected Q V keyvals ms q) (selected Q V keyvals ms' q).
+Proof. exact selected_perm. Qed.
+Print Assumptions C05_selected_perm.
